@@ -185,14 +185,19 @@ def _apply_defaults(sig, args, kwargs):
     values so that every argument is defined.
     """
 
+    args = list(args)
     for i, param in enumerate(sig.parameters.values()):
         if (
             i >= len(args)
             and param.default != Parameter.empty
             and param.name not in kwargs
         ):
-            kwargs[param.name] = param.default
-    return list(args), kwargs
+            if param.kind == Parameter.POSITIONAL_ONLY:
+                # cannot be passed by keyword
+                args.append(param.default)
+            else:
+                kwargs[param.name] = param.default
+    return args, kwargs
 
 
 def wraps(
@@ -369,7 +374,7 @@ def check(
             list_args, kw = _apply_defaults(sig, args, kwargs)
 
             for i, param_name in enumerate(sig.parameters):
-                if i >= len(args):
+                if i >= len(list_args):
                     list_args.append(kw[param_name])
 
             for dim, value in zip(dimensions, list_args):
